@@ -44,15 +44,20 @@ class C14Scenario(ChangeScenario):
                    if r.method == 'patch' and r.status == 200 and isinstance(r.post, dict)}
         own_rv: dict[tuple[str, str], tuple[int, float]] = {}
         stale_after_timeout: set[tuple[str, str]] = set()
+        delivered_at: dict[tuple[str, int], float] = {}
         for t, k, p in env.obs:
             if k == 'srv' and p.get('rid') in post_rv and p['verb'] in ('serve', 'respond'):
                 oname = p['path'].rstrip('/').split('/')[-1 if not p['path'].endswith('/status') else -2]
                 if post_rv[p['rid']] > own_rv.get((p['op'], oname), (0, 0.0))[0]:
                     own_rv[(p['op'], oname)] = (post_rv[p['rid']], t)
                 continue
+            if k == 'deliver' and isinstance(p.get('item'), tuple) and len(p['item']) >= 3 and p['item'][2]:
+                delivered_at.setdefault((p['item'][1], int(p['item'][2])), t)
             if k == 'call' and p.get('rv') is not None and p.get('name') is not None:
                 rv_own, t_own = own_rv.get((p['op'], p['name']), (0, 0.0))
-                if int(p['rv']) < rv_own and t >= t_own + timeout - 1e-9:
+                echo_at = delivered_at.get((p['name'], rv_own))
+                # (only if the echo really was outstanding all that time: a newer view that HAS arrived must be taken)
+                if int(p['rv']) < rv_own and t >= t_own + timeout - 1e-9 and (echo_at is None or echo_at >= t):
                     stale_after_timeout.add((p['op'], p['uid']))
             if k == 'call' and p['id'] in resume:
                 if p['deleting'] and not resume[p['id']].get('deleted'):
